@@ -10,6 +10,17 @@ BASELINE_OFF = ("cd /repo && env -u CNES_PANDORA_VERIF /venv/bin/python -m pytes
 
 # id -> (technique, level text, level note, design ref)
 CLAIMED = {
+    "C13": (
+        "Metamorphic relations between runs of the real pipeline (crop/tile vs. whole image, vertical flip), exact comparison",
+        "Exploration: generated pairs (tile-constructed 30-60 x 70-130, integer radiometry, masks), local pipelines "
+        "and crop rectangles with arbitrary odd/even offsets (absolute ROI-style coordinates); every pixel whose "
+        "conservative dependency cone lies inside the crop must get bit-identical disparity and flags (left and right "
+        "products) from the crop run and the full run; flipping both images vertically must flip the outputs.",
+        "Trusted: the conservative cone radii computed by the harness (larger than the true cone: fewer pixels compared, "
+        "never a false alarm). zncc+cbca is not generated (float32 prefix sums of non-integer costs are not "
+        "associative); the flip relation is not asserted with bilateral filtering.",
+        "DESIGN.md §5 C13",
+    ),
     "C09": (
         "Metamorphic relations between runs of the real code (nested intervals, grids vs. scalar), plus range invariant observed per step",
         "Exploration: (nested) the volume computed for [a,b] must equal, bit for bit, the slice of the volume for a "
